@@ -5,6 +5,8 @@ Every check compares menpo's Graph / Tree / PointGraph API with the dict-of-sets
 built from the *same edge list*.  Small scopes are enumerated exhaustively (one case = one graph; all
 vertex masks, all start/end pairs, all roots are looped over inside the case), the rest is Hypothesis.
 """
+import json
+
 import numpy as np
 from hypothesis import strategies as st
 from scipy.sparse import csr_matrix
@@ -40,7 +42,11 @@ RULE = (
     "Hypothesis-drawn graphs (random / tree / forest / unicyclic / dense / DAG skeletons, relabelled by a "
     "drawn permutation, extra isolated vertices, duplicated and re-ordered edge rows), positively weighted "
     "graphs (dyadic or small-integer weights, dense or CSR input), rooted trees (with one invalid variant "
-    "per case for the constructor) and the predefined constructors, up to 40 vertices. A case is "
+    "per case for the constructor; the same tree again as a weighted dense / CSR / unsorted-CSR matrix handed to "
+    "Tree() / PointTree() directly) and the predefined constructors incl. init_2d_grid(adjacency_matrix=...) and "
+    "init_from_depth_image (plain and masked images), up to 40 vertices. Every query-consistency oracle is also "
+    "run on objects OBTAINED from menpo (minimum spanning trees, from_mask results, copies, default grid trees) and "
+    "on graphs built from a CSR matrix with unsorted column indices, edge tests first. A case is "
     "non-trivial when the graph has at least one edge and is not complete; distinct = distinct "
     "canonical-JSON digest of the case"
 )
@@ -53,6 +59,11 @@ ASSUMPTIONS = [
     "an all-false mask may be refused with ValueError (a graph needs one vertex); a tree mask that leaves only the root may be refused with ValueError (the Tree class documents that it cannot hold an isolated vertex)",
     "Tree construction from a valid arborescence that the constructor refuses is reported, then the object is rebuilt with skip_checks=True (as menpo's own star_graph/chain_graph do) so that its queries are still checked",
     "graphs built from an edge list with duplicated rows are only asked unweighted questions (the weight of a duplicated row is not documented)",
+    "find_shortest_path cost: a wrong cost equal to sum(D_ref[start, v] for v in route[:-1]) (reference Dijkstra distances) is the recorded defect (shortest_path.cost_wrong); any other wrong cost is shortest_path.cost_changed",
+    "relative_locations() is asserted row-aligned with .edges (child - parent per edge row); relative_location_edge must raise ValueError for every non-edge incl. the reversed pair of a one-way edge",
+    "skip_checks=True variants are only asked about valid vertices and must give the reference answer (find_path: the same route as the checked call)",
+    "init_from_depth_image: PointTree with the default connectivity is only generated for 4-connected masks with >= 2 pixels and judged by a validity predicate (spanning tree of 8-neighbour edges rooted at the grid centre / the first unmasked pixel); PointTree + custom matrix only for unmasked images (the matrix is not masked there; undocumented)",
+    "only ndarray and scipy csr_matrix adjacency inputs are generated (the constructor documents and accepts nothing else); the unsorted-index family is CSR built from (data, indices, indptr) with shuffled / reversed rows",
     "delaunay_graph is compared with the edges of scipy.spatial.Delaunay on the same points (same backend, definitional) plus connectivity; the grid constructors with an explicit 4-neighbour lattice reference (PointTree.init_2d_grid: shapes >= 2 x 2, a validity predicate as for MST)",
 ]
 
@@ -82,17 +93,76 @@ def dname(ref):
     return "directed" if ref.directed else "undirected"
 
 
+def unsorted_csr(dense, seed=None):
+    """CSR matrix of ``dense`` whose column indices are NOT sorted inside a row (legal CSR, what
+    scipy's csgraph routines return): reversed rows for ``seed is None``, else a seeded shuffle of
+    every row (reversed if the shuffle happens to come out sorted)."""
+    dense = np.asarray(dense)
+    n = dense.shape[0]
+    rng = None if seed is None else np.random.RandomState(int(seed))
+    data, ind, ptr = [], [], [0]
+    for i in range(n):
+        cols = [j for j in range(n) if dense[i, j] != 0]
+        if rng is None:
+            cols = cols[::-1]
+        elif len(cols) >= 2:
+            sh = [cols[k] for k in rng.permutation(len(cols))]
+            cols = sh if sh != cols else cols[::-1]
+        ind.extend(cols)
+        data.extend(dense[i, j] for j in cols)
+        ptr.append(len(ind))
+    return csr_matrix((np.array(data, dtype=dense.dtype), np.array(ind, dtype=np.int32), np.array(ptr, dtype=np.int32)), shape=(n, n))
+
+
+def matrix_input(dense, kind, seed=None):
+    if kind == "csr":
+        return csr_matrix(dense)
+    if kind == "csr_unsorted":
+        return unsorted_csr(dense, seed)
+    return np.array(dense)
+
+
+def probe_pairs(ref, pairs=(), every=False):
+    """Vertex pairs for the edge tests: every ordered pair on small graphs, otherwise every edge in both
+    orientations, the requested pairs and a ring of (mostly) non-edges."""
+    n = ref.n
+    if every and n <= 6:
+        return [(u, v) for u in range(n) for v in range(n)]
+    pp = set(ref.w) | set((v, u) for (u, v) in ref.w) | set((int(a), int(b)) for a, b in pairs)
+    pp |= set((v, (v + 1) % n) for v in range(n)) | set((v, v) for v in range(0, n, 3))
+    return sorted(pp)
+
+
 # ================================================================================================
 # shared oracles
 
 
 def check_structure(ctx, g, ref, pre="", full=True, pairs=()):
     """edges / n_edges / adjacency pattern / is_edge / neighbours|children|parents / adjacency list /
-    isolated vertices of ``g`` against the reference graph ``ref``."""
+    isolated vertices of ``g`` against the reference graph ``ref``.  The per-pair and per-vertex
+    queries run FIRST, on the object as it was handed over (a later matrix-level call could
+    canonicalise the sparse storage and hide a query that depends on its layout)."""
     n = ref.n
     dn = dname(ref)
     if not ctx.expect(g.n_vertices == n, pre + "n_vertices", lambda: "got %r want %r" % (g.n_vertices, n)):
         return False
+    # is_edge: every pair (full, small graphs) or edges both ways + ring of non-edges
+    pp = probe_pairs(ref, pairs, every=full)
+    bad = [(u, v) for (u, v) in pp if bool(g.is_edge(u, v)) != ref.has_edge(u, v)]
+    ctx.expect(not bad, pre + "is_edge." + dn, lambda: "wrong for pairs %r; edges=%r" % (bad[:6], sorted(ref.edge_set())[:40]))
+    if full:
+        for v in range(n):
+            if ref.directed:
+                c = ilist(g.children(v))
+                p = ilist(g.parents(v))
+                ctx.expect(sorted(c) == ref.children(v) and len(c) == len(set(c)), pre + "children", lambda: "v=%d got %r want %r" % (v, c, ref.children(v)))
+                ctx.expect(sorted(p) == ref.parents(v) and len(p) == len(set(p)), pre + "parents", lambda: "v=%d got %r want %r" % (v, p, ref.parents(v)))
+                ctx.expect(g.n_children(v) == len(ref.children(v)), pre + "n_children", lambda: "v=%d" % v)
+                ctx.expect(g.n_parents(v) == len(ref.parents(v)), pre + "n_parents", lambda: "v=%d" % v)
+            else:
+                c = ilist(g.neighbours(v))
+                ctx.expect(sorted(c) == ref.children(v) and len(c) == len(set(c)), pre + "neighbours", lambda: "v=%d got %r want %r" % (v, c, ref.children(v)))
+                ctx.expect(g.n_neighbours(v) == len(ref.children(v)), pre + "n_neighbours", lambda: "v=%d" % v)
     ctx.expect(list(g.vertices) == list(range(n)), pre + "vertices", lambda: repr(list(g.vertices)))
     e = np.asarray(g.edges)
     want = ref.edge_set()
@@ -126,29 +196,81 @@ def check_structure(ctx, g, ref, pre="", full=True, pairs=()):
     iso = sorted(ilist(g.isolated_vertices()))
     ctx.expect(iso == ref.isolated(), pre + "isolated_vertices." + dn, lambda: "got %r want %r" % (iso, ref.isolated()))
     ctx.expect(bool(g.has_isolated_vertices()) == bool(ref.isolated()), pre + "has_isolated_vertices", "")
-    if not full:
-        return True
-    # is_edge
-    if n <= 6:
-        pp = [(u, v) for u in range(n) for v in range(n)]
-    else:
-        pp = set(ref.w) | set((v, u) for (u, v) in ref.w) | set((int(s), int(t)) for s, t in pairs)
-        pp = sorted(pp)
-    bad = [(u, v) for (u, v) in pp if bool(g.is_edge(u, v)) != ref.has_edge(u, v)]
-    ctx.expect(not bad, pre + "is_edge." + dn, lambda: "wrong for pairs %r" % (bad[:6],))
-    for v in range(n):
-        if ref.directed:
-            c = ilist(g.children(v))
-            p = ilist(g.parents(v))
-            ctx.expect(sorted(c) == ref.children(v) and len(c) == len(set(c)), pre + "children", lambda: "v=%d got %r want %r" % (v, c, ref.children(v)))
-            ctx.expect(sorted(p) == ref.parents(v) and len(p) == len(set(p)), pre + "parents", lambda: "v=%d got %r want %r" % (v, p, ref.parents(v)))
-            ctx.expect(g.n_children(v) == len(ref.children(v)), pre + "n_children", lambda: "v=%d" % v)
-            ctx.expect(g.n_parents(v) == len(ref.parents(v)), pre + "n_parents", lambda: "v=%d" % v)
-        else:
-            c = ilist(g.neighbours(v))
-            ctx.expect(sorted(c) == ref.children(v) and len(c) == len(set(c)), pre + "neighbours", lambda: "v=%d got %r want %r" % (v, c, ref.children(v)))
-            ctx.expect(g.n_neighbours(v) == len(ref.children(v)), pre + "n_neighbours", lambda: "v=%d" % v)
     return True
+
+
+def check_skip_variants(ctx, g, ref, verts, pairs, rt=None, pre=""):
+    """skip_checks=True only drops the argument validation: on valid vertices every query must give the
+    same answer (judged against the reference, find_path against the checked call)."""
+    for v in verts:
+        v = int(v)
+        if ref.directed:
+            ctx.expect(sorted(ilist(g.children(v, skip_checks=True))) == ref.children(v), pre + "skip_checks.children", lambda: "v=%d" % v)
+            ctx.expect(sorted(ilist(g.parents(v, skip_checks=True))) == ref.parents(v), pre + "skip_checks.parents", lambda: "v=%d" % v)
+            ctx.expect(g.n_children(v, skip_checks=True) == len(ref.children(v)), pre + "skip_checks.n_children", lambda: "v=%d" % v)
+            ctx.expect(g.n_parents(v, skip_checks=True) == len(ref.parents(v)), pre + "skip_checks.n_parents", lambda: "v=%d" % v)
+        else:
+            ctx.expect(sorted(ilist(g.neighbours(v, skip_checks=True))) == ref.children(v), pre + "skip_checks.neighbours", lambda: "v=%d" % v)
+            ctx.expect(g.n_neighbours(v, skip_checks=True) == len(ref.children(v)), pre + "skip_checks.n_neighbours", lambda: "v=%d" % v)
+        if rt is not None:
+            d = g.depth_of_vertex(v, skip_checks=True)
+            ctx.expect(int(d) == rt.depth[v], pre + "skip_checks.depth_of_vertex", lambda: "v=%d got %r want %r" % (v, d, rt.depth[v]))
+            ctx.expect(bool(g.is_leaf(v, skip_checks=True)) == (not rt.kids[v]), pre + "skip_checks.is_leaf", lambda: "v=%d" % v)
+            p = g.parent(v, skip_checks=True)
+            p = None if p is None else int(p)
+            ctx.expect(p == rt.par[v], pre + "skip_checks.parent", lambda: "v=%d got %r want %r" % (v, p, rt.par[v]))
+    for s, t in pairs:
+        s, t = int(s), int(t)
+        ctx.expect(bool(g.is_edge(s, t, skip_checks=True)) == ref.has_edge(s, t), pre + "skip_checks.is_edge", lambda: "(%d, %d)" % (s, t))
+        for method in ("bfs", "dfs"):
+            a = ilist(g.find_path(s, t, method=method))
+            b = ilist(g.find_path(s, t, method=method, skip_checks=True))
+            ctx.expect(a == b, pre + "skip_checks.find_path", lambda: "%d->%d %s: %r vs %r" % (s, t, method, a, b))
+
+
+def check_relative(ctx, pg, ref, pts, pre="", pairs=()):
+    """PointDirectedGraph / PointTree: relative_locations() is child - parent for every row of .edges and
+    relative_location_edge(p, c) is that vector for an edge, ValueError for a non-edge.  The per-edge
+    queries run first (they go through is_edge on the untouched object)."""
+    bad = []
+    for (u, v) in probe_pairs(ref, pairs):
+        try:
+            r = np.asarray(pg.relative_location_edge(u, v))
+        except ValueError:
+            if ref.has_edge(u, v):
+                bad.append(("refused edge", u, v))
+            continue
+        if not ref.has_edge(u, v):
+            bad.append(("accepted non-edge", u, v))
+        elif not np.array_equal(r, pts[v] - pts[u]):
+            bad.append(("wrong vector", u, v))
+    ctx.expect(not bad, pre + "relative_location_edge", lambda: "%r; edges=%r" % (bad[:6], sorted(ref.edge_set())[:40]))
+    e = np.asarray(pg.edges).reshape(-1, 2)
+    rl = np.asarray(pg.relative_locations())
+    want = pts[e[:, 1]] - pts[e[:, 0]]
+    ctx.expect(
+        rl.shape == want.shape and np.array_equal(rl, want),
+        pre + "relative_locations",
+        lambda: "edges=%r got %r want %r" % (e.tolist()[:12], rl.tolist()[:12], want.tolist()[:12]),
+    )
+
+
+def check_tojson(ctx, pg, ref, pts, pre=""):
+    j = pg.tojson()
+    lm = j.get("landmarks", {}) if isinstance(j, dict) else {}
+    if not ctx.expect("points" in lm and "connectivity" in lm, pre + "tojson.keys", lambda: repr(j)[:300]):
+        return
+    try:
+        json.dumps(j)
+    except (TypeError, ValueError) as ex:
+        ctx.fail(pre + "tojson.not_serialisable", repr(ex))
+        return
+    got_p = np.array(lm["points"], dtype=float).reshape(-1, pts.shape[1]) if len(lm["points"]) else np.zeros((0, pts.shape[1]))
+    ctx.expect(got_p.shape == pts.shape and np.array_equal(got_p, pts), pre + "tojson.points", lambda: repr(lm["points"])[:300])
+    rows = [(int(a), int(b)) for a, b in lm["connectivity"]]
+    got = set(rows) if ref.directed else set((min(a, b), max(a, b)) for a, b in rows)
+    want = ref.edge_set()
+    ctx.expect(got == want and len(rows) == len(want), pre + "tojson.connectivity." + dname(ref), lambda: "got %r want %r" % (rows[:40], sorted(want)[:40]))
 
 
 def check_cycles(ctx, g, ref):
@@ -241,11 +363,20 @@ def check_shortest(ctx, g, ref, pairs, unweighted=False):
         # route and reachability are right: only the returned cost is left to judge
         if close(cost, d, rtol=0, atol=1e-9):
             ctx.event("shortest cost right (%d hops)" % min(len(path) - 1, 4))
-        else:
-            ctx.event("shortest cost wrong (%d hops)" % min(len(path) - 1, 4))
-            # the known pinned defect fires on most pairs: one report per case is enough
+            continue
+        # The recorded (pinned) defect returns, instead of the path weight, the sum of the REFERENCE
+        # distances from the start to every vertex of the route but the last.  Exactly that value keeps
+        # the known signature; any other wrong cost is a different root cause.
+        pinned = sum(dists[s][v] for v in path[:-1])
+        if close(cost, pinned, rtol=0, atol=1e-9):
+            ctx.event("shortest cost wrong, pinned formula (%d hops)" % min(len(path) - 1, 4))
+            # fires on most pairs: one report per case is enough
             if not any(sg == "shortest_path.cost_wrong" for sg, _ in ctx.fails):
                 ctx.fail("shortest_path.cost_wrong", info)
+        else:
+            ctx.event("shortest cost wrong, NOT the pinned formula")
+            if not any(sg == "shortest_path.cost_changed" for sg, _ in ctx.fails):
+                ctx.fail("shortest_path.cost_changed", lambda: "%s; pinned-defect value would be %r" % (info(), pinned))
 
 
 def check_all_shortest(ctx, g, ref, unweighted=False):
@@ -331,7 +462,13 @@ def check_mst(ctx, g, ref, roots, pts=None, pre="mst."):
         ctx.expect(isinstance(t, PointTree if pts is not None else Tree), pre + "class", type(t).__name__)
         if not ctx.expect(t.n_vertices == ref.n, pre + "n_vertices", info):
             continue
+        # edge tests on the tree exactly as returned (nothing else has touched its matrix yet): asked for
+        # every graph edge in both orientations, judged below against the tree's own edge list
+        asked = [(u, v, bool(t.is_edge(u, v))) for (u, v) in sorted(ref.w)]
         te = [(int(a), int(b)) for a, b in np.asarray(t.edges)]
+        tes = set(te)
+        wrong = [(u, v) for (u, v, r) in asked if r != ((u, v) in tes)]
+        ctx.expect(not wrong, pre + "tree.is_edge.directed", lambda: "is_edge disagrees with .edges for %r; %s" % (wrong[:6], info()))
         ctx.expect(len(te) == ref.n - 1, pre + "edge_count", info)
         ctx.expect(all(ref.has_edge(a, b) for a, b in te), pre + "edge_not_in_graph", info)
         ctx.expect(int(t.root_vertex) == root, pre + "root_vertex", info)
@@ -341,12 +478,17 @@ def check_mst(ctx, g, ref, roots, pts=None, pre="mst."):
         if all(ref.has_edge(a, b) for a, b in te):
             tot = sum(ref.w[(a, b)] for a, b in te)
             ctx.expect(close(tot, want_w, rtol=0, atol=1e-9), pre + "not_minimum", lambda: "total %r, Kruskal %r; %s" % (tot, want_w, info()))
+        if pts is not None:
+            check_relative(ctx, t, tr, pts, pre=pre + "tree.")
+        check_structure(ctx, t, tr, pre=pre + "tree.", full=ref.n <= 8)
         check_tree(ctx, t, RefTree(ref.n, te, root), pre=pre + "tree.")
         if pts is not None:
             ctx.expect(np.array_equal(t.points, pts), pre + "points", "")
+    # the graph that was asked still has all its edges (both orientations)
+    check_structure(ctx, g, ref, pre=pre + "receiver.", full=False)
 
 
-def check_mask(ctx, pg, ref, pts, mask, weighted=False):
+def check_mask(ctx, pg, ref, pts, mask, weighted=False, relative=True):
     m = np.array(mask, dtype=bool)
     if not m.any():
         try:
@@ -363,6 +505,8 @@ def check_mask(ctx, pg, ref, pts, mask, weighted=False):
     if not check_structure(ctx, r, sub, pre="from_mask.", full=False):
         return
     ctx.expect(np.array_equal(r.points, pts[idx]), "from_mask.points", lambda: "mask=%r got %r want %r" % (mask, r.points.tolist(), pts[idx].tolist()))
+    if ref.directed and relative:
+        check_relative(ctx, r, sub, pts[idx], pre="from_mask.")
     if weighted:
         got = r.adjacency_matrix.toarray()
         ctx.expect(np.array_equal(got, dense_matrix(sub)), "from_mask.weights", lambda: "mask=%r got\n%s\nwant\n%s" % (mask, got, dense_matrix(sub)))
@@ -370,7 +514,7 @@ def check_mask(ctx, pg, ref, pts, mask, weighted=False):
     ctx.expect(pg.n_vertices == ref.n and int(pg.n_edges) == ref.n_edges(), "from_mask.receiver_changed", "")
 
 
-def check_tree_mask(ctx, pt, n, tedges, root, pts, mask):
+def check_tree_mask(ctx, pt, n, tedges, root, pts, mask, wts=None):
     m = np.array(mask, dtype=bool)
     if not m[root] and not m.all():
         try:
@@ -418,27 +562,25 @@ def check_tree_mask(ctx, pt, n, tedges, root, pts, mask):
         return
     ctx.event("tree mask: all" if m.all() else "tree mask: subtree dropped" if len(idx) < int(m.sum()) else "tree mask: proper")
     ctx.expect(isinstance(r, PointTree), "from_mask.tree.class", type(r).__name__)
-    sub = RefGraph(len(idx), sub_edges, True)
+    sub_w = None if wts is None else [w for (p, c), w in zip(tedges, wts) if keep[p] and keep[c]]
+    sub = RefGraph(len(idx), sub_edges, True, sub_w)
     if not check_structure(ctx, r, sub, pre="from_mask.tree.", full=False):
         return
     ctx.expect(np.array_equal(r.points, pts[idx]), "from_mask.tree.points", info)
+    if wts is not None:
+        got = r.adjacency_matrix.toarray()
+        ctx.expect(np.array_equal(got, dense_matrix(sub)), "from_mask.tree.weights", lambda: "%s got\n%s\nwant\n%s" % (info(), got, dense_matrix(sub)))
+    check_relative(ctx, r, sub, pts[idx], pre="from_mask.tree.")
     if len(idx) >= 1 and sub.is_arborescence(new[root]):
         check_tree(ctx, r, RefTree(len(idx), sub_edges, new[root]), pre="from_mask.tree.")
 
 
-def build_tree(ctx, cls, n, tedges, root, pts=None):
-    """Construct Tree / PointTree from a *valid* arborescence; a refusal is reported and the object
-    rebuilt without checks.  Returns None for the single-vertex tree the class cannot hold."""
-    e = earr(tedges)
-
-    def make(skip):
-        if cls is Tree:
-            return Tree.init_from_edges(e, n, root, skip_checks=skip)
-        return PointTree.init_from_edges(pts, e, root, skip_checks=skip)
-
+def _build_checked(ctx, make, n, tedges, root, how):
+    """Run ``make(skip_checks)`` for a *valid* arborescence; a refusal is reported and the object rebuilt
+    without checks.  Returns None for the single-vertex tree the class cannot hold."""
     try:
         t = make(False)
-        ctx.event("tree ctor: accepted")
+        ctx.event("tree ctor (%s): accepted" % how)
         return t
     except ValueError as ex:
         if n == 1:
@@ -446,10 +588,70 @@ def build_tree(ctx, cls, n, tedges, root, pts=None):
             return None
         if "BFS" in str(ex):
             ctx.event("tree ctor: valid tree refused by BFS check")
-            ctx.fail("tree.bfs_check.refuses_valid_tree.ctor", "n=%d edges=%r root=%d: %s" % (n, tedges, root, ex))
+            ctx.fail("tree.bfs_check.refuses_valid_tree.ctor", "n=%d edges=%r root=%d (%s): %s" % (n, tedges, root, how, ex))
         else:
-            ctx.fail("tree.ctor.refuses_valid_tree", "n=%d edges=%r root=%d: %s" % (n, tedges, root, ex))
+            ctx.fail("tree.ctor.refuses_valid_tree", "n=%d edges=%r root=%d (%s): %s" % (n, tedges, root, how, ex))
     return make(True)
+
+
+def build_tree(ctx, cls, n, tedges, root, pts=None):
+    """Construct Tree / PointTree from the edge list of a *valid* arborescence."""
+    e = earr(tedges)
+
+    def make(skip):
+        if cls is Tree:
+            return Tree.init_from_edges(e, n, root, skip_checks=skip)
+        return PointTree.init_from_edges(pts, e, root, skip_checks=skip)
+
+    return _build_checked(ctx, make, n, tedges, root, "edges")
+
+
+def build_tree_matrix(ctx, cls, n, tedges, root, mat, pts=None, how="matrix"):
+    """Construct Tree(adjacency, root) / PointTree(points, adjacency, root) directly from a (weighted)
+    dense or CSR adjacency matrix of a *valid* arborescence."""
+
+    def make(skip):
+        if cls is Tree:
+            return Tree(mat, root, skip_checks=skip)
+        return PointTree(pts, mat, root, skip_checks=skip)
+
+    return _build_checked(ctx, make, n, tedges, root, how)
+
+
+def check_weighted_tree(ctx, n, tedges, root, wts, pts, masks, kind, seed, pairs):
+    """Tree / PointTree built DIRECTLY from a weighted adjacency matrix (dense, CSR, CSR with unsorted
+    rows): same arborescence, weights kept, queries, relative locations, shortest paths, masks."""
+    rt = RefTree(n, tedges, root)
+    wref = RefGraph(n, tedges, True, wts)
+    dense = dense_matrix(wref)
+    verts = sorted(set([root] + [int(v) for p in pairs for v in p]))[:6]
+    t = build_tree_matrix(ctx, Tree, n, tedges, root, matrix_input(dense, kind, seed), how=kind)
+    if t is not None:
+        check_structure(ctx, t, wref, pre="tree.matrix.", full=n <= 12, pairs=pairs)
+        ctx.expect(np.array_equal(t.adjacency_matrix.toarray(), dense), "tree.matrix.weights_changed", lambda: "input=%s" % kind)
+        check_tree(ctx, t, rt, pre="tree.matrix.")
+        check_skip_variants(ctx, t, wref, verts, pairs, rt=rt, pre="tree.matrix.")
+        check_shortest(ctx, t, wref, pairs)
+        check_shortest(ctx, t, wref, pairs[:2], unweighted=True)
+        if n <= 16:
+            check_all_shortest(ctx, t, wref)
+    pt = build_tree_matrix(ctx, PointTree, n, tedges, root, matrix_input(dense, kind, seed), pts=pts, how=kind)
+    if pt is None:
+        return
+    check_relative(ctx, pt, wref, pts, pre="pointtree.matrix.", pairs=pairs)
+    check_structure(ctx, pt, wref, pre="pointtree.matrix.", full=False, pairs=pairs)
+    ctx.expect(np.array_equal(pt.adjacency_matrix.toarray(), dense), "pointtree.matrix.weights_changed", lambda: "input=%s" % kind)
+    ctx.expect(np.array_equal(pt.points, pts), "pointtree.matrix.points", "")
+    check_tree(ctx, pt, rt, pre="pointtree.matrix.")
+    check_shortest(ctx, pt, wref, pairs)
+    check_tojson(ctx, pt, wref, pts, pre="pointtree.matrix.")
+    # a copy is a tree obtained from a menpo operation: same queries on the object as returned
+    cp = pt.copy()
+    check_relative(ctx, cp, wref, pts, pre="pointtree.copy.", pairs=pairs)
+    check_structure(ctx, cp, wref, pre="pointtree.copy.", full=False, pairs=pairs)
+    check_tree(ctx, cp, rt, pre="pointtree.copy.")
+    for mask in masks:
+        check_tree_mask(ctx, pt, n, tedges, root, pts, mask, wts=wts)
 
 
 def check_tree_ctor_refuses(ctx, n, edges, root, why):
@@ -473,6 +675,8 @@ def check_valid_tree(ctx, n, tedges, root, pts, masks, point=True):
     if t is not None:
         check_structure(ctx, t, ref, pre="tree.", full=n <= 12)
         check_tree(ctx, t, rt)
+        sv = sorted(set([root, 0, n - 1, n // 2]))
+        check_skip_variants(ctx, t, ref, sv, [(root, sv[-1]), (sv[-1], root), (sv[0], sv[len(sv) // 2])], rt=rt, pre="tree.")
         # depth = length of the path from the root
         for v in range(n):
             p = ilist(t.find_path(root, v))
@@ -482,8 +686,10 @@ def check_valid_tree(ctx, n, tedges, root, pts, masks, point=True):
     pt = build_tree(ctx, PointTree, n, tedges, root, pts)
     if pt is None:
         return
+    check_relative(ctx, pt, ref, pts, pre="pointtree.")
     check_tree(ctx, pt, rt, pre="pointtree.")
     ctx.expect(np.array_equal(pt.points, pts), "pointtree.points", "")
+    check_tojson(ctx, pt, ref, pts, pre="pointtree.")
     for mask in masks:
         check_tree_mask(ctx, pt, n, tedges, root, pts, mask)
 
@@ -544,6 +750,7 @@ def c_exh_undirected(case, ctx):
 
     g = UndirectedGraph.init_from_edges(earr(listed), n)
     check_structure(ctx, g, ref)
+    check_skip_variants(ctx, g, ref, range(n), pairs)
     check_cycles(ctx, g, ref)
     check_paths(ctx, g, ref, pairs, budget=10**6)
     check_shortest(ctx, g, ref, pairs)
@@ -553,6 +760,7 @@ def c_exh_undirected(case, ctx):
     pg = PointUndirectedGraph.init_from_edges(pts, earr(listed))
     check_structure(ctx, pg, ref, pre="point.", full=False)
     ctx.expect(np.array_equal(pg.points, pts), "point.points", "")
+    check_tojson(ctx, pg, ref, pts, pre="point.")
     for mask in masks:
         check_mask(ctx, pg, ref, pts, mask)
 
@@ -560,6 +768,12 @@ def c_exh_undirected(case, ctx):
     wref = RefGraph(n, edges, False, [W_UND[k] for k in ks])
     wg = PointUndirectedGraph(pts, dense_matrix(wref))
     check_structure(ctx, wg, wref, pre="matrix.", full=False)
+    # ... and from a CSR matrix whose rows list their columns in decreasing order (legal, unsorted)
+    ug = UndirectedGraph(unsorted_csr(dense_matrix(wref)))
+    check_structure(ctx, ug, wref, pre="matrix.unsorted_csr.")
+    ctx.expect(np.array_equal(ug.adjacency_matrix.toarray(), dense_matrix(wref)), "matrix.unsorted_csr.weights_changed", "")
+    check_shortest(ctx, ug, wref, pairs)
+    check_mst(ctx, ug, wref, range(n), pre="mst.unsorted_csr.")
     check_shortest(ctx, wg, wref, pairs)
     check_shortest(ctx, wg, wref, pairs, unweighted=True)
     check_all_shortest(ctx, wg, wref)
@@ -575,6 +789,10 @@ def c_exh_undirected(case, ctx):
             tedges = [(a, b) if hop[a] < hop[b] else (b, a) for (a, b) in edges]
             ctx.event("rooted tree")
             check_valid_tree(ctx, n, tedges, root, pts, masks)
+            if n >= 2:
+                tw = [W_UND[k] for k in ks]
+                for i, kind in enumerate(["dense", "csr", "csr_unsorted"]):
+                    check_weighted_tree(ctx, n, tedges, root, tw, pts, masks if i == (root + bits) % 3 else [], kind, None, pairs)
 
 
 # ================================================================================================
@@ -595,21 +813,33 @@ def c_exh_directed(case, ctx):
 
     g = DirectedGraph.init_from_edges(earr(edges), n)
     check_structure(ctx, g, ref)
+    check_skip_variants(ctx, g, ref, range(n), pairs)
     check_cycles(ctx, g, ref)
     check_paths(ctx, g, ref, pairs, budget=10**6)
     check_shortest(ctx, g, ref, pairs)
     check_all_shortest(ctx, g, ref)
 
     pg = PointDirectedGraph.init_from_edges(pts, earr(edges))
+    check_relative(ctx, pg, ref, pts, pre="point.", pairs=pairs)
     check_structure(ctx, pg, ref, pre="point.", full=False)
     ctx.expect(np.array_equal(pg.points, pts), "point.points", "")
+    check_tojson(ctx, pg, ref, pts, pre="point.")
     for mask in masks:
         check_mask(ctx, pg, ref, pts, mask)
 
     wref = RefGraph(n, edges, True, [W_DIR[k] for k in ks])
     wg = PointDirectedGraph(pts, csr_matrix(dense_matrix(wref)))
     check_structure(ctx, wg, wref, pre="matrix.", full=False)
+    # the same weighted graph from a CSR matrix with decreasing (unsorted) column order in every row
+    ug = PointDirectedGraph(pts, unsorted_csr(dense_matrix(wref)))
+    check_relative(ctx, ug, wref, pts, pre="matrix.unsorted_csr.", pairs=pairs)
+    check_structure(ctx, ug, wref, pre="matrix.unsorted_csr.")
+    ctx.expect(np.array_equal(ug.adjacency_matrix.toarray(), dense_matrix(wref)), "matrix.unsorted_csr.weights_changed", "")
+    check_shortest(ctx, ug, wref, pairs)
+    for mask in masks:
+        check_mask(ctx, ug, wref, pts, mask, weighted=True)
     check_shortest(ctx, wg, wref, pairs)
+    check_shortest(ctx, wg, wref, pairs, unweighted=True)
     check_all_shortest(ctx, wg, wref)
     check_all_shortest(ctx, wg, wref, unweighted=True)
     for mask in masks:
@@ -620,6 +850,10 @@ def c_exh_directed(case, ctx):
         if ref.is_arborescence(root):
             ctx.event("rooted tree")
             check_valid_tree(ctx, n, edges, root, pts, masks)
+            if n >= 2:
+                tw = [W_DIR[k] for k in ks]
+                for i, kind in enumerate(["dense", "csr", "csr_unsorted"]):
+                    check_weighted_tree(ctx, n, edges, root, tw, pts, masks if i == (root + bits) % 3 else [], kind, None, pairs)
         else:
             check_tree_ctor_refuses(ctx, n, edges, root, "exhaustive")
 
@@ -767,6 +1001,7 @@ def c_rand_graph(case, ctx):
 
     g = cls.init_from_edges(edges_arg, n)
     check_structure(ctx, g, ref, pairs=pairs)
+    check_skip_variants(ctx, g, ref, sorted(set(v for p in pairs for v in p))[:6], pairs)
     check_cycles(ctx, g, ref)
     check_paths(ctx, g, ref, pairs, budget=300)
     check_shortest(ctx, g, ref, pairs, unweighted=True)
@@ -777,8 +1012,11 @@ def c_rand_graph(case, ctx):
             check_mst(ctx, g, ref, [p[0] for p in pairs[:2]])
 
     pg = pcls.init_from_edges(pts, edges_arg)
-    check_structure(ctx, pg, ref, pre="point.", full=False)
+    if directed:
+        check_relative(ctx, pg, ref, pts, pre="point.", pairs=pairs)
+    check_structure(ctx, pg, ref, pre="point.", full=False, pairs=pairs)
     ctx.expect(np.array_equal(pg.points, pts), "point.points", "")
+    check_tojson(ctx, pg, ref, pts, pre="point.")
     for mask in case["masks"]:
         check_mask(ctx, pg, ref, pts, mask)
 
@@ -823,7 +1061,9 @@ def s_rand_weighted():
             "shape": shape,
             "n": n,
             "edges": rows,
-            "input": draw(st.sampled_from(["dense", "csr", "dense_int" if den == 1 else "dense"])),
+            # csr_unsorted: a legal CSR matrix whose rows list their columns in a shuffled order
+            "input": draw(st.sampled_from(["dense", "csr", "csr_unsorted", "csr_unsorted", "dense_int" if den == 1 else "dense"])),
+            "rowseed": draw(st.one_of(st.none(), st.integers(0, 2**20))),
             "point": draw(st.booleans()),
             "pts": _points(draw, n),
             "masks": _masks(draw, n, 2),
@@ -843,8 +1083,7 @@ def c_rand_weighted(case, ctx):
     classify(ctx, ref)
     pts = np.array(case["pts"], dtype=float)
     mat = dense_matrix(ref, dtype=int if case["input"] == "dense_int" else float)
-    if case["input"] == "csr":
-        mat = csr_matrix(mat)
+    mat = matrix_input(mat, case["input"], case.get("rowseed"))
     if case["point"]:
         g = (PointDirectedGraph if directed else PointUndirectedGraph)(pts, mat)
     else:
@@ -854,9 +1093,21 @@ def c_rand_weighted(case, ctx):
         pairs.append(pairs_e[0])
         # far apart along the skeleton: long routes are where cost and route can disagree
         pairs.append((pairs_e[0][0], pairs_e[-1][1]))
+    if case["point"] and directed:
+        check_relative(ctx, g, ref, pts, pre="matrix.", pairs=pairs)
     check_structure(ctx, g, ref, pre="matrix.", full=n <= 12, pairs=pairs)
+    check_skip_variants(ctx, g, ref, sorted(set(v for p in pairs for v in p))[:6], pairs[:3], pre="matrix.")
     got_w = g.adjacency_matrix.toarray()
     ctx.expect(np.array_equal(got_w, dense_matrix(ref)), "matrix.weights_changed", lambda: "got\n%s" % got_w)
+    if case["point"]:
+        # a copy is a graph obtained from a menpo operation: its queries are asked on the object as returned
+        cp = g.copy()
+        if directed:
+            check_relative(ctx, cp, ref, pts, pre="copy.", pairs=pairs)
+        check_structure(ctx, cp, ref, pre="copy.", full=False, pairs=pairs)
+        ctx.expect(np.array_equal(cp.adjacency_matrix.toarray(), dense_matrix(ref)), "copy.weights_changed", "")
+        ctx.expect(np.array_equal(cp.points, pts), "copy.points", "")
+        check_tojson(ctx, cp, ref, pts, pre="copy.")
     check_shortest(ctx, g, ref, pairs)
     check_shortest(ctx, g, ref, pairs[:2], unweighted=True)
     check_all_shortest(ctx, g, ref)
@@ -892,6 +1143,7 @@ def s_rand_tree():
         edges = [edges[k] for k in order]
         root = perm[0]
         neg = draw(st.sampled_from(["extra_edge", "drop_edge", "wrong_root", "isolated_vertex", "root_out_of_range", "reversed_edge"]))
+        den, wmax = draw(st.sampled_from([(1, 3), (1, 20), (16, 200)]))
         return {
             "n": n,
             "tshape": tshape,
@@ -902,6 +1154,11 @@ def s_rand_tree():
             "masks": _masks(draw, n, 4, force=root),
             "neg": neg,
             "aux": [draw(st.integers(0, 10**6)), draw(st.integers(0, 10**6))],
+            # the same tree given directly as a weighted adjacency matrix
+            "wts": [w / float(den) for w in draw(st.lists(st.integers(1, wmax), min_size=n - 1, max_size=n - 1))],
+            "input": draw(st.sampled_from(["dense", "csr", "csr_unsorted", "csr_unsorted"])),
+            "rowseed": draw(st.one_of(st.none(), st.integers(0, 2**20))),
+            "pairs": [[root, perm[draw(st.integers(0, n - 1))]] for _ in range(2)] + [list(_pair(draw, n))],
         }
 
     return s()
@@ -915,6 +1172,8 @@ def c_rand_tree(case, ctx):
     ctx.event("n<=8" if n <= 8 else "n>8")
     ctx.nontrivial(n >= 3)
     check_valid_tree(ctx, n, tedges, root, pts, case["masks"])
+    ctx.event("matrix input=%s" % case["input"])
+    check_weighted_tree(ctx, n, tedges, root, case["wts"], pts, case["masks"][:2], case["input"], case.get("rowseed"), [tuple(p) for p in case["pairs"]])
     # one invalid variant
     neg, (a1, a2) = case["neg"], case["aux"]
     es, r, nn = list(tedges), root, n
@@ -950,8 +1209,53 @@ def c_rand_tree(case, ctx):
 def s_predefined():
     @st.composite
     def s(draw):
-        kind = draw(st.sampled_from(["star", "chain", "complete", "empty", "delaunay", "grid", "grid_tree"]))
+        kind = draw(st.sampled_from(["star", "chain", "complete", "empty", "delaunay", "grid", "grid_tree", "grid_adj", "grid_adj", "depth", "depth", "depth"]))
         case = {"kind": kind}
+        if kind in ("grid_adj", "depth"):
+            cname = draw(st.sampled_from(["PointUndirectedGraph", "PointDirectedGraph", "PointTree"]))
+            lo = 2 if (kind == "depth" and cname == "PointTree") else 1
+            r, c = draw(st.integers(lo, 5)), draw(st.integers(lo, 5))
+            if r * c < 2:
+                c = 2
+            n = r * c
+            case.update({"cls": cname, "shape": [r, c], "spacing": draw(st.sampled_from([None, 2, [2, 3]]))})
+            # custom connectivity: "default" only for depth images
+            custom = kind == "grid_adj" or draw(st.booleans())
+            case["masked"] = kind == "depth" and draw(st.booleans())
+            if cname == "PointTree" and case["masked"]:
+                custom = False  # (a custom matrix is not masked by PointTree.init_from_depth_image: outside the docstring)
+            case["custom"] = custom
+            if custom:
+                if cname == "PointTree":
+                    perm = draw(st.permutations(list(range(n))))
+                    rows = [[perm[draw(st.integers(0, k - 1))], perm[k]] for k in range(1, n)]
+                    case["root"] = perm[0]
+                else:
+                    base = _skeleton(draw, n, draw(st.sampled_from(["random", "tree", "unicyclic"])))
+                    rows = [[b, a] if draw(st.booleans()) else [a, b] for a, b in base]
+                    case["root"] = None
+                case["edges"] = [[a, b, draw(st.integers(1, 40)) / 4.0] for a, b in rows]
+                case["input"] = draw(st.sampled_from(["dense", "csr", "csr_unsorted"]))
+                case["rowseed"] = draw(st.one_of(st.none(), st.integers(0, 2**20)))
+            if kind == "depth":
+                case["pixels"] = draw(st.lists(st.integers(-40, 40).map(lambda k: k / 4.0), min_size=n, max_size=n))
+                if case["masked"]:
+                    if cname == "PointTree":
+                        # a 4-connected region grown cell by cell (the default tree is a spanning tree of
+                        # the triangulated, masked grid: it exists only if that grid stays connected)
+                        cells = [draw(st.integers(0, n - 1))]
+                        for _ in range(draw(st.integers(1, n))):
+                            v = cells[draw(st.integers(0, len(cells) - 1))]
+                            i, j = v // c, v % c
+                            di, dj = draw(st.sampled_from([(0, 1), (1, 0), (0, -1), (-1, 0)]))
+                            if 0 <= i + di < r and 0 <= j + dj < c:
+                                cells.append((i + di) * c + j + dj)
+                        m = [v in set(cells) for v in range(n)]
+                    else:
+                        m = draw(st.lists(st.booleans(), min_size=n, max_size=n))
+                        m[draw(st.integers(0, n - 1))] = True
+                    case["mask"] = m
+            return case
         if kind == "delaunay":
             case["pts"] = draw(gen.general_points_case(3, 14, 2, 20.0))
             case["point"] = draw(st.booleans())
@@ -1010,6 +1314,9 @@ def c_predefined(case, ctx):
         if case["point"]:
             ctx.expect(np.array_equal(g.points, pts), "predefined.delaunay.points", "")
         return
+    if kind in ("grid_adj", "depth"):
+        _grid_custom_or_depth(case, ctx)
+        return
     if kind in ("grid", "grid_tree"):
         r, c = case["shape"]
         n = r * c
@@ -1053,6 +1360,102 @@ def c_predefined(case, ctx):
     ctx.nontrivial(pts.shape[0] >= 3)
     for cname in ALLOWED[kind]:
         _predefined_one(case, ctx, kind, cname, pts)
+
+
+def _lattice(r, c):
+    out = []
+    for i in range(r):
+        for j in range(c):
+            if j + 1 < c:
+                out.append((i * c + j, i * c + j + 1))
+            if i + 1 < r:
+                out.append((i * c + j, (i + 1) * c + j))
+    return out
+
+
+def _grid_custom_or_depth(case, ctx):
+    """init_2d_grid(shape, adjacency_matrix=...) and init_from_depth_image(Image | MaskedImage) for the
+    three point-graph classes: grid points (plus the pixel values as third coordinate), the given /
+    default connectivity, and for a masked image the induced subgraph on the unmasked pixels."""
+    from menpo.image import Image, MaskedImage
+
+    kind, cname = case["kind"], case["cls"]
+    cls = CLASSES[cname]
+    r, c = case["shape"]
+    n = r * c
+    sp = case["spacing"]
+    spv = (1, 1) if sp is None else (sp, sp) if not isinstance(sp, list) else tuple(sp)
+    spacing = None if sp is None else (tuple(sp) if isinstance(sp, list) else sp)
+    grid = np.array([[i * spv[0], j * spv[1]] for i in range(r) for j in range(c)], dtype=float).reshape(n, 2)
+    is_tree = cname == "PointTree"
+    directed = cname != "PointUndirectedGraph"
+    masked = bool(case.get("masked"))
+    ctx.event("%s %s %s%s" % (kind, cname, "custom" if case["custom"] else "default", " masked" if masked else ""))
+    ctx.nontrivial(n >= 3)
+    pre = "predefined.%s." % kind
+    kw = {}
+    weighted = False
+    if case["custom"]:
+        es = [(a, b) for a, b, w in case["edges"]]
+        full = RefGraph(n, es, directed, [w for a, b, w in case["edges"]])
+        kw["adjacency_matrix"] = matrix_input(dense_matrix(full), case["input"], case.get("rowseed"))
+        if is_tree:
+            kw["root_vertex"] = case["root"]
+        weighted = True
+    else:
+        lat = _lattice(r, c)
+        full = RefGraph(n, lat + [(b, a) for a, b in lat] if directed else lat, directed)
+    if kind == "grid_adj":
+        g = cls.init_2d_grid((r, c), spacing=spacing, **kw)
+        keep = [True] * n
+        want_pts = grid
+    else:
+        px = np.array(case["pixels"], dtype=float).reshape(1, r, c)
+        keep = [bool(b) for b in case["mask"]] if masked else [True] * n
+        if masked:
+            ctx.event("depth mask: all" if all(keep) else "depth mask: proper")
+            img = MaskedImage(px, mask=np.array(keep, dtype=bool).reshape(r, c))
+        else:
+            img = Image(px)
+        if is_tree and sum(keep) < 2:
+            ctx.event("depth tree: fewer than two pixels, skipped")
+            return
+        g = cls.init_from_depth_image(img, spacing=spacing, **kw)
+        idx0 = [v for v in range(n) if keep[v]]
+        want_pts = np.hstack([grid[idx0], px.reshape(n, 1)[idx0]])
+    ctx.expect(type(g) is cls, pre + "class", lambda: "%s for %s" % (type(g).__name__, cname))
+    sub, idx = full.induced(keep)
+    if not ctx.expect(g.n_vertices == len(idx), pre + "n_vertices", lambda: "got %r want %r" % (g.n_vertices, len(idx))):
+        return
+    ctx.expect(g.points.shape == want_pts.shape and close(g.points, want_pts, rtol=0, atol=1e-12), pre + "points", lambda: "got %r want %r" % (g.points.tolist()[:8], want_pts.tolist()[:8]))
+    if is_tree and not case["custom"]:
+        # default tree: a spanning tree of the triangulated (masked) grid rooted at the centre (plain image)
+        # or at the first unmasked pixel (masked image); any such tree is valid
+        want_root = 0 if masked else (r // 2) * c + (c // 2)
+        if kind == "depth" and masked:
+            ctx.event("depth tree: masked region of %s pixels" % ("2-4" if len(idx) <= 4 else ">4"))
+        ctx.expect(int(g.root_vertex) == want_root, pre + "tree.root", lambda: "got %r want %r" % (g.root_vertex, want_root))
+        asked = [(u, v, bool(g.is_edge(u, v))) for (u, v) in probe_pairs(sub)]
+        te = [(int(a), int(b)) for a, b in np.asarray(g.edges)]
+        wrong = [(u, v) for (u, v, a) in asked if a != ((u, v) in set(te))]
+        ctx.expect(not wrong, pre + "tree.is_edge.directed", lambda: "is_edge disagrees with .edges for %r" % (wrong[:6],))
+        near = all(max(abs(idx[a] // c - idx[b] // c), abs(idx[a] % c - idx[b] % c)) == 1 for a, b in te)
+        ctx.expect(near, pre + "tree.edge_not_between_neighbours", lambda: repr(te))
+        tr = RefGraph(len(idx), te, True)
+        if ctx.expect(len(te) == len(idx) - 1 and len(set(te)) == len(te) and tr.is_arborescence(want_root), pre + "tree.not_spanning_tree", lambda: "root=%r edges=%r" % (want_root, te)):
+            check_relative(ctx, g, tr, want_pts, pre=pre + "tree.")
+            check_structure(ctx, g, tr, pre=pre + "tree.", full=len(idx) <= 9)
+            check_tree(ctx, g, RefTree(len(idx), te, want_root), pre=pre + "tree.")
+        return
+    if directed:
+        check_relative(ctx, g, sub, want_pts, pre=pre)
+    check_structure(ctx, g, sub, pre=pre, full=len(idx) <= 9)
+    if weighted:
+        got = g.adjacency_matrix.toarray()
+        ctx.expect(np.array_equal(got, dense_matrix(sub)), pre + "weights_changed", lambda: "got\n%s\nwant\n%s" % (got, dense_matrix(sub)))
+    check_tojson(ctx, g, sub, want_pts, pre=pre)
+    if is_tree:
+        check_tree(ctx, g, RefTree(n, es, case["root"]), pre=pre + "tree.")
 
 
 def _predefined_one(case, ctx, kind, cname, pts):
@@ -1130,9 +1533,9 @@ CLAUSES = [
     Clause("rand_graph", c_rand_graph, s_rand_graph, quick=1200, thorough=30000, nt_floor=0.5,
            rule="random un/directed graphs up to 39 vertices from edge lists with duplicated, re-ordered, mixed-orientation rows and isolated vertices; non-trivial: >=1 edge and not complete"),
     Clause("rand_weighted", c_rand_weighted, s_rand_weighted, quick=1000, thorough=25000, nt_floor=0.5,
-           rule="positively weighted graphs (dyadic / small-integer weights) up to 30 vertices from dense, integer or CSR matrices; shortest paths, all-pairs distances, MST, weighted masks"),
-    Clause("rand_tree", c_rand_tree, s_rand_tree, quick=800, thorough=20000, nt_floor=0.5,
-           rule="rooted trees (recursive, chain, star, binary) up to 40 vertices, identity or permuted labels, masks biased to keep the root, one invalid variant per case; non-trivial: >= 3 vertices"),
-    Clause("predefined", c_predefined, s_predefined, quick=400, thorough=8000, nt_floor=0.4,
-           rule="star / chain / complete / empty / delaunay / 2-D grid constructors for every documented graph class; non-trivial: >= 3 vertices (delaunay >= 4)"),
+           rule="positively weighted graphs (dyadic / small-integer weights) up to 30 vertices from dense, integer, CSR or unsorted-index CSR matrices; shortest paths, all-pairs distances, MST (tree queried as returned), copies, weighted masks"),
+    Clause("rand_tree", c_rand_tree, s_rand_tree, quick=600, thorough=20000, nt_floor=0.5,
+           rule="rooted trees (recursive, chain, star, binary) up to 40 vertices, identity or permuted labels, from an edge list and directly from a weighted dense / CSR / unsorted-CSR matrix (weights kept, relative locations, shortest paths, copies, weighted masks), masks biased to keep the root, one invalid variant per case; non-trivial: >= 3 vertices"),
+    Clause("predefined", c_predefined, s_predefined, quick=600, thorough=12000, nt_floor=0.4,
+           rule="star / chain / complete / empty / delaunay / 2-D grid constructors for every documented graph class, init_2d_grid with an explicit adjacency matrix and init_from_depth_image (Image / MaskedImage, default or explicit connectivity) for the three point-graph classes; non-trivial: >= 3 vertices (delaunay >= 4)"),
 ]
